@@ -67,7 +67,7 @@ class Check(CheckBase):
     id = "C04"
     level = "exploration"
     title = "Every exported file is a structurally valid RIFF/WAVE PCM file"
-    rule = ("(i) every WAV written by re-running the structural sweeps (AKAI structure sweep of C01, Roland window+header "
+    rule = ("(i) every WAV written by re-running the structural sweeps (AKAI structure sweep and the 13 name families x 5 volume names of C01, Roland window+header "
             "sweeps of C02 -- all loop modes --, CDDA file cases of C03) walked by an independent RIFF walker + stdlib wave, "
             "each AKAI/Roland case exported a second time into a destination that already holds longer files under the same "
             "names; AKAI volumes in which one sample's WAV cannot be built (negative MIDI note): reported files must "
@@ -88,6 +88,9 @@ class Check(CheckBase):
         from mcv.checks import c01, c02, c03
         cases = [dict(c, origin="c01") for c in c01.sweep_structure(self.quick)]
         cases = cases if not self.quick else cases[::3]
+        # name shapes (inner dots, '#', '+', blanks, '.WAV' endings, equal names, all 41 AKAI characters): a reported file
+        # must exist under the reported name and be well-formed whatever the name looks like
+        cases += [dict(c, origin="c01") for c in c01.sweep_names(self.quick)]
         out += self.chunk(cases, 24)
         rc = [dict(c, origin="c02") for c in itertools.chain(c02.sweep_window(self.quick), c02.sweep_header(self.quick))]
         rc = rc if not self.quick else rc[::4]
